@@ -40,7 +40,8 @@ translate_c20.translate_ctors turns __init__ bodies into effect terms checked by
 ok_ctor (no write to any parameter); the accepted ones are pinned obligations.
 Strengthening round 2 (model-compared): lut with cls SegmentedPaletteColorLUT (real
 discrete + linear segments expanding to 1 .. 2^16 entries and a malformed stream:
-[descriptor, stored bytes, number of expanded entries], written and read back),
+[descriptor, stored bytes, number of expanded entries, segmented_lut_data], written and read back;
+tables of 0 / more than 2^16 entries must be refused, D110),
 seg_measures (Segmentation.__init__ x origin of the pixel measures x spacing present /
 derivable: [object of the caller changed, spacing recorded]) and pr_area
 (pr.content._add_displayed_area_attributes called directly x order of the sizes of
@@ -114,9 +115,7 @@ NOT_EXECUTED = ['SpecimenDescription.from_dataset at run time (substitute attrib
                 '(TypeError / ValueError, counted as rejected, inputs checked unchanged); only float pm arrays and '
                 'LUT tables are accepted in that byte order',
                 'LegacyConvertedEnhanced* images as SOURCE of a segmentation / parametric map (the substitute attribute '
-                'table gives them no FrameOfReferenceUID); AdvancedBlendingPresentationState',
-                'segmented tables that expand to 0 or to more than 2^16 entries are model-compared but not written: '
-                'the current code accepts them although the descriptor cannot be written (reported, see claims)']
+                'table gives them no FrameOfReferenceUID); AdvancedBlendingPresentationState']
 RULE = ('guard/valid: strings over a boundary alphabet (upper, lower, digit, space, underscore, backslash, newline, '
         'non-ASCII) with lengths around every limit (0,1,15,16,17,63,64,65,1023..1025,10239..10241); uid: 128-bit '
         'draws incl. 0, 9, 10, 2^k, 2^128-1; conv: every reachable converter x copy in {True,False} on randomly '
@@ -1630,6 +1629,16 @@ def run_lut(c):
             got = None
             if target is tf and c['via'] not in ('segmented', 'segments'):
                 got = tf.red_lut.lut_data
+            if c['via'] == 'segments':
+                for col in ('r', 'g', 'b'):
+                    lut1 = {'r': tf.red_lut, 'g': tf.green_lut, 'b': tf.blue_lut}[col]
+                    try:
+                        seen = [int(x) for x in lut1.segmented_lut_data]
+                    except RuntimeError as ex:
+                        return _viol(f'{what}: segmented_lut_data of the {col} table raises {ex}')
+                    if seen != [int(x) for x in c[col]]:
+                        return _viol(f'{what}: segmented_lut_data of the {col} table of the transformation is '
+                                     f'{seen[:9]}, the caller passed {c[col][:9]}')
     except REJECTIONS as ex:
         if _call_mistake(ex):
             raise
@@ -1658,7 +1667,8 @@ def _segments_count(data):
 
 
 def _run_segmented_lut(c, what):
-    """hd.SegmentedPaletteColorLUT on its own: [descriptor, stored bytes, number of expanded entries]."""
+    """hd.SegmentedPaletteColorLUT on its own: [descriptor, stored bytes, number of expanded entries,
+    what the segmented_lut_data accessor returns]."""
     import numpy as np
     import highdicom as hd
     dt = np.uint8 if c['bits'] == 8 else np.uint16
@@ -1678,17 +1688,26 @@ def _run_segmented_lut(c, what):
         return v
     key = f'{color.title()}PaletteColorLookupTable'
     n = int(len(obj.lut_data))
-    result = [[int(x) for x in obj[key + 'Descriptor'].value], list(bytes(obj['Segmented' + key + 'Data'].value)), n]
     if not 1 <= n <= 65536:
-        return result       # no valid table (see claims: accepted by the current code, residue)
+        return _viol(f'{what}: a table of {n} entries was accepted (the descriptor cannot describe it)')
+    try:
+        seen = [int(x) for x in obj.segmented_lut_data]
+    except Exception as ex:
+        return _viol(f'{what}: the segmented_lut_data accessor of the constructed table raises '
+                     f'{type(ex).__name__}: {ex}')
+    result = [[int(x) for x in obj[key + 'Descriptor'].value], list(bytes(obj['Segmented' + key + 'Data'].value)), n,
+              seen]
     if obj.number_of_entries != n:
         return _viol(f'{what}: number_of_entries is {obj.number_of_entries}, the segments expand to {n} entries')
     viol, back = _check_object(what + f' expanding to {n} entries', obj, {})
     if viol:
         return _viol(viol)
     again = hd.SegmentedPaletteColorLUT.extract_from_dataset(back.ContentSequence[0], color)
-    raw = np.frombuffer(again['Segmented' + key + 'Data'].value, '<u1' if c['bits'] == 8 else '<u2')
-    if again.number_of_entries != n or [int(x) for x in raw[:len(c['r'])]] != [int(x) for x in c['r']]:
+    try:
+        seen2 = [int(x) for x in again.segmented_lut_data]
+    except Exception as ex:
+        return _viol(f'{what}: segmented_lut_data of the table read back raises {type(ex).__name__}: {ex}')
+    if again.number_of_entries != n or seen2 != [int(x) for x in c['r']]:
         return _viol(f'{what}: the table read back has {again.number_of_entries} entries / other segments than '
                      f'the {n}-entry table that was built')
     return result
@@ -1707,7 +1726,7 @@ def _lut_expected(c):
     n = len(c['r'])
     if c['cls'] == 'SegmentedPaletteColorLUT':
         n = _segments_count(c['r'])
-        return [[0 if n == 65536 else n, c['first'], c['bits']], enc(c['r']), n]
+        return [[0 if n == 65536 else n, c['first'], c['bits']], enc(c['r']), n, [int(x) for x in c['r']]]
     if c.get('via') == 'segments':
         n = _segments_count(c['r'])
     desc = [0 if n == 65536 else n, c['first'], c['bits']]
@@ -2356,6 +2375,17 @@ def _gen_segmented_cases(rng, n, lays):
                           'first': 0, 'r': _segments(rng, bits, total), 'g': _segments(rng, bits, total),
                           'b': _segments(rng, bits, total), 'holder': holder if total != 65536 or rng.random() < 0.5 else 'pr',
                           'layout': 'C'})
+    # segmented_lut_data gives the caller's data back: 1, 2, 3, 4 segments (odd and even numbers of values; an
+    # odd number of 8-bit values is stored with a pad byte), values 0 / 1 / 2 in every position
+    for bits in (8, 16):
+        for nseg in (1, 2, 3, 4, 5):
+            d = [0, rng.choice([1, 2, 3]), rng.choice([0, 1, 2, 2 ** bits - 1])]
+            for _ in range(nseg - 1):
+                d += rng.choice([[0, rng.choice([0, 1, 2, 5]), rng.choice([0, 1, 2, 7])],
+                                 [1, rng.choice([0, 2, 3]), rng.choice([2, 100, 2 ** bits - 1])]])
+            cases.append({'kind': 'lut', 'cls': 'SegmentedPaletteColorLUT', 'bits': bits, 'first': 0, 'r': d,
+                          'color': rng.choice(['red', 'green', 'blue']), 'wellformed': False,
+                          'layout': rng.choice(lays[bits])})
     # the seed of every regression of the 2^16 rule: one discrete entry and one ramp over the full 16-bit range
     cases.append({'kind': 'lut', 'cls': 'SegmentedPaletteColorLUT', 'bits': 16, 'first': 0,
                   'r': [0, 1, 0, 1, 65535, 65535], 'color': 'red', 'wellformed': True, 'layout': 'C'})
@@ -2735,9 +2765,16 @@ def oracle(c, out):
         return out.kind[len('VIOLATION '):]
     if k == 'lut':
         if isinstance(out, Err):
+            if c['cls'] == 'SegmentedPaletteColorLUT' and c.get('wellformed'):
+                return f'well-formed segmented data expanding to {_segments_count(c["r"])} entries refused: {out.kind}'
             return None          # refusal; which inputs are refused is the model's side of the comparison
         if c['cls'] == 'SegmentedPaletteColorLUT' and not c.get('wellformed'):
-            return None          # malformed / not a table of 1..2^16 entries: the model's side of the comparison
+            # an irregular stream (e.g. a linear segment of length 0): whether it is accepted is the model's
+            # side; an accepted one must still be a describable table and give its data back
+            desc, _, cnt, seen = out
+            if not 1 <= cnt <= 65536 or desc[0] != (0 if cnt == 65536 else cnt) or seen != [int(x) for x in c['r']]:
+                return f'accepted segmented data give descriptor {desc}, {cnt} entries, segmented_lut_data {seen[:9]}'
+            return None
         stored = [out[1]] if c['cls'] in PLAIN_LUTS + ('PaletteColorLUT', 'SegmentedPaletteColorLUT') else out[1]
         for col, st in zip(('red', 'green', 'blue'), stored):
             if len(st) % 2:
